@@ -6,6 +6,8 @@ and about its relation to the transcription of the Recommendation (`SophiaModel.
 import SophiaProofs.Lemmas.Rdfc10
 import SophiaProofs.Lemmas.CnqEscape
 import SophiaProofs.Lemmas.SpecEq
+import SophiaProofs.Lemmas.WithinLimits
+import SophiaProofs.Lemmas.SpecRelated
 import SophiaProofs.Props.C05
 import SophiaModel.Model.Rdfc10Spec
 import SophiaModel.Model.Rdfc10Run
@@ -451,5 +453,83 @@ theorem fails_only_explicitly (H : Str → Str) (td : Nat → Nat → Bool) (pl 
   · exact Or.inr (Or.inl (by rw [hr]; rfl))
   · exact Or.inr (Or.inr (Or.inl (by rw [hr]; rfl)))
   · exact Or.inr (Or.inr (Or.inr (by rw [hr]; rfl)))
+
+end SophiaProofs.C06
+
+namespace SophiaProofs.C06
+open SophiaModel SophiaModel.Rdfc10 SophiaProofs.Rdfc10L
+
+/-! ### "never for a dataset within the limits" -/
+
+/-- **`normalize_with` never fails for a dataset within the limits**, for every hash function: if step 2
+accepts the dataset (`unsupported_iff_now` says exactly when) and the dataset is statically within
+the configured limits — `Rdfc10.withinLimits`: for no blank node can a list of related blank nodes
+be longer than the permutation limit (`relatedBound`: the number of related occurrences filed under
+it), and the depth guard does not trip at any depth up to the number of blank nodes — then the
+result is `Ok`.  This is the notion the C06 driver uses for its oracle field `o.st=ok`, so the
+implementation is tested against exactly this theorem's hypothesis.  Ingredients: the recursion depth
+stays below the number of identifiers issued so far, which is at most the number of blank nodes
+(`hashNDegree_ok`); the related lists partition the related occurrences (`buildHn_total`). -/
+theorem never_fails_within_limits (H : Str → Str) (td : Nat → Nat → Bool) (pl : Nat) {D : List Quad}
+    {b2q : SMap (List Quad)} (h2 : step2 D = .ok b2q) (hw : withinLimits td pl b2q = true) :
+    ∃ s, normalizeWith H td pl D = .ok s := by
+  obtain ⟨r, hr⟩ := relabelWith_ok_within (H := H) flag_predicate_must_be_iri h2 hw
+  exact ⟨_, by unfold normalizeWith; rw [hr]; rfl⟩
+
+/-- with the ideal depth factor 1 (`depth > n` — what `1.0 * n as f32` is for every n below 2^24) the
+depth part of `withinLimits` holds for every dataset: only the permutation limit can then cause `ToxicGraph` -/
+theorem default_depth_part_holds (b2q : SMap (List Quad)) :
+    (List.range (b2q.length + 1)).all (fun d => !(decide (d > b2q.length))) = true := by
+  apply List.all_eq_true.mpr
+  intro d hd
+  have := List.mem_range.mp hd
+  simp
+  omega
+
+/-- non-vacuity: the 3-cycle is within the default limits (and needs Hash N-Degree Quads) -/
+example : ∃ b2q, step2 cycle3 = .ok b2q ∧ withinLimits (fun d n => decide (d > n)) 6 b2q = true :=
+  ⟨_, rfl, by decide⟩
+
+end SophiaProofs.C06
+
+namespace SophiaProofs.C06
+open SophiaModel SophiaModel.Rdfc10 SophiaProofs.Rdfc10L SophiaProofs.SpecL
+
+/-! ### parts of 4.7 / 4.8 proved equal to the Recommendation; necessity of `NoSelfRef` -/
+
+/-- **Hash Related Blank Node is as specified** (RDFC-1.0 4.7.3), for all quads with an IRI predicate, all
+positions, all hash functions: given corresponding issuers and the memoised first-degree hash, the model of
+`hash_related_bnode` returns the hash of exactly the specified input — in particular the predicate is
+hashed unless the position is `g` (the class of seeded change C06-d) -/
+theorem hash_related_as_specified (c : Ctx) (st : Rdfc10Spec.State) (issuer : Issuer) (sissuer : Rdfc10Spec.IdIssuer)
+    (related : Str) (q : Quad) (p : Str) (pos : Char) (hq : q.p = .iri p)
+    (hcan : Rdfc10Spec.lookup related st.canonicalIssuer.issued = c.canonical.get related)
+    (hiss : Rdfc10Spec.lookup related sissuer.issued = issuer.get related)
+    (hb2h : c.b2h.get related = some (Rdfc10Spec.hashFirstDegreeQuads c.H st related)) :
+    hashRelated c related q issuer [pos] = .ok (Rdfc10Spec.hashRelatedBlankNode c.H st related q sissuer pos) :=
+  SpecL.hash_related_as_specified c st issuer sissuer related q p pos hq hcan hiss hb2h
+
+/-- the skip test of 5.4.4.3 may be made once after the loop (as `rdfc10.rs` does) instead of after every
+related node (as the Recommendation says): it is monotone in the appended suffix -/
+theorem skip_rule_monotone (chosen path suffix : Str)
+    (h : Rdfc10Spec.skipRule Rdfc10Spec.Deviations.none chosen path = true) :
+    Rdfc10Spec.skipRule Rdfc10Spec.Deviations.none chosen (path ++ suffix) = true :=
+  SpecL.skip_rule_monotone chosen path suffix h
+
+/-- `NoSelfRef` in `impl_eq_spec_partial` is necessary: on `{_:a p _:a . _:b p <o>}` (SHA-384) every other
+hypothesis holds — RDF quads, distinct first-degree hashes — and the two models disagree, because the code
+files the self-referencing quad twice under `_:a` (the per-occurrence reading of step 2.1) -/
+def selfRefWitness : List Quad :=
+  [⟨.bnode "n0".toList, .iri "x:p0".toList, .bnode "n0".toList, none⟩,
+   ⟨.bnode "n1".toList, .iri "x:p0".toList, .iri "x:o".toList, none⟩]
+
+example : (selfRefWitness.all Rdfc10Spec.isRdfQuad &&
+    (match step2 selfRefWitness with
+     | .ok b2q => decide ((SMap.keys (hashEntries Sha2.sha384Hex b2q)).Nodup)
+     | .error _ => false) &&
+    (match normalizeWith Sha2.sha384Hex (fun _ _ => false) 6 selfRefWitness,
+           Rdfc10Spec.canonicalNQuads Sha2.sha384Hex selfRefWitness with
+     | .ok a, some b => a != b
+     | _, _ => false)) = true := by native_decide
 
 end SophiaProofs.C06
